@@ -473,3 +473,152 @@ func abortStream(g *vlib.Rng, n int) {
 		W.ask("close")
 	}
 }
+
+// ---------------------------------------------------------------- concurrent use
+// genParCase: a history in which the store is used by several goroutines at the same moment (`par`: one call per
+// goroutine, released together — worker.go). The calls of one batch commute (Gets / Counts / ApplyFlags next to each other;
+// Put / Del / ApplyFlags only on keys no other call of the batch names, and then no Count), so the schedule cannot be seen
+// in a map guarded by one lock: every reply and the state after the batch are those of the listed order. Between the
+// batches the records are pushed out of memory in every way the store has (NO_CACHE records after sync / defrag / a browse,
+// a reopen with LoadData=false), because a call that finds its record in memory touches neither the data files nor the
+// shared file table; values are mostly large so that concurrent loads overlap. Default options throughout: no automatic
+// sync can fall inside a batch (which call triggers it would depend on the schedule).
+const maxPar = 12
+
+func genParCase(g *vlib.Rng, idx int) caseT {
+	perm := permOf(g, len(keyPool))
+	nk := 4 + g.Intn(6)
+	keys := make([]uint64, nk)
+	for i := range keys {
+		keys[i] = keyPool[perm[i]]
+	}
+	sizeClass := g.Intn(4) // 0,1: 16..64 KiB   2: mixed   3: small
+	value := func() []byte {
+		switch {
+		case sizeClass <= 1 || (sizeClass == 2 && g.Bool()):
+			return pat(g.Pick(65536, 65535, 40000, 16384, 32768, 65536), byte(1+g.Intn(255)))
+		case sizeClass == 2:
+			return g.Bytes(100 + g.Intn(4900))
+		}
+		return g.Bytes(g.Intn(64))
+	}
+	vol := 0
+	if g.Chance(1, 8) {
+		vol = 1
+	}
+	open := func(load int) string { return fmt.Sprintf("open %d %d %s", vol, load, defOpts) }
+	lines := []string{open(g.Pick(1, 1, 0))}
+	live := map[uint64]bool{}
+	for _, k := range keys {
+		if g.Chance(7, 8) {
+			lines = append(lines, fmt.Sprintf("putext %d %s %d", k, hexOf(value()), g.Pick(2, 2, 2, 3, 0)))
+			live[k] = true
+		}
+	}
+	first := true
+	unload := func() {
+		reflag := func() {
+			// (a Get answers with YES_CACHE: the records are flagged NO_CACHE again, after a sync so that they are on disk)
+			lines = append(lines, "sync")
+			for _, k := range keys {
+				if live[k] && g.Chance(9, 10) {
+					lines = append(lines, fmt.Sprintf("flags %d %d", k, g.Pick(2, 2, 2, 3, 18)))
+				}
+			}
+		}
+		switch x := g.Intn(10); {
+		case x < 3 && first:
+			lines = append(lines, "sync") // sync() drops the NO_CACHE records it has just written
+		case x < 5:
+			lines = append(lines, "close", open(0))
+			r.Hit("par:after-lazy-open")
+		case x < 7:
+			reflag()
+			lines = append(lines, "defrag 1") // defrag() releases every record (freerec)
+		default:
+			reflag()
+			lines = append(lines, []string{"browseall -", "browseall -", "browse -"}[g.Intn(3)]) // so does a browse
+		}
+		first = false
+		// mostly one ordinary Get first: it opens the data file, so that the concurrent loads which follow find it in the
+		// store's table of open files and share the descriptor (without it every load opens the file itself and the
+		// goroutines meet in that table instead)
+		if g.Chance(3, 4) {
+			lines = append(lines, "get "+itoa(keys[g.Intn(nk)]))
+			r.Hit("par:data-file-already-open")
+		}
+	}
+	unload()
+	rounds := 3 + g.Intn(4)
+	for rd := 0; rd < rounds; rd++ {
+		var items []string
+		p2 := permOf(g, nk)
+		if g.Chance(2, 3) {
+			// lookups only: Get of (nearly) every key — by one, two or three goroutines each (Gets of one key commute as
+			// well) —, a few Counts
+			// (at most maxPar goroutines: they spin until all of them run, which needs a processor each)
+			dup := g.Pick(1, 2, 2, 3)
+			for d := 0; d < dup; d++ {
+				for _, j := range permOf(g, nk) {
+					if g.Chance(9, 10) && len(items) < maxPar {
+						items = append(items, "g"+itoa(keys[j]))
+					}
+				}
+			}
+			for c := g.Intn(3); c > 0 && len(items) < maxPar; c-- {
+				items = append(items, "c")
+			}
+			r.Hit("par:lookups-only")
+		} else {
+			for _, j := range p2 {
+				k := keys[j]
+				switch x := g.Intn(10); {
+				case x < 5:
+					items = append(items, "g"+itoa(k))
+				case x < 7:
+					items = append(items, fmt.Sprintf("f%d:%d", k, g.Pick(2, 8, 1, 16, 3, 0)))
+				case x < 9:
+					items = append(items, fmt.Sprintf("p%d:%s", k, hexOf(value())))
+					live[k] = true
+				default:
+					items = append(items, "d"+itoa(k))
+					delete(live, k)
+				}
+			}
+			r.Hit("par:lookups-and-updates")
+		}
+		if len(items) < 2 {
+			items = append(items, "g"+itoa(keys[0]), "g"+itoa(keys[1]))
+		}
+		lines = append(lines, "par "+strings.Join(items, ","))
+		// what the batch left behind is observed by ordinary calls (a wrong value stays cached) …
+		switch g.Intn(4) {
+		case 0:
+			lines = append(lines, "peek")
+		case 1:
+			lines = append(lines, "get "+itoa(keys[g.Intn(nk)]), "browse -")
+		}
+		// … and the records are pushed out of memory again
+		if rd+1 < rounds {
+			unload()
+		}
+	}
+	lines = append(lines, "close", "open 0 1 "+defOpts)
+	for _, k := range keys {
+		lines = append(lines, "get "+itoa(k))
+	}
+	lines = append(lines, "peek")
+	return caseT{Name: fmt.Sprintf("par-%d", idx), Snap: false, Lines: lines, Sparse: true}
+}
+
+func permOf(g *vlib.Rng, n int) []int {
+	p := make([]int, n)
+	for i := range p {
+		p[i] = i
+	}
+	for i := n - 1; i > 0; i-- {
+		j := g.Intn(i + 1)
+		p[i], p[j] = p[j], p[i]
+	}
+	return p
+}
